@@ -7,6 +7,7 @@ CONSTANTS
   CrcModel = "atomic"
   IgnoreSigpipe = FALSE
   Cap = 2
+  Buffered = FALSE
   Gaps = "overlap"
   Emit = FALSE
 INVARIANTS TypeOK Isolation Available
